@@ -85,6 +85,11 @@ FormatFail(w, f5, res, prec, out) ==
                   ELSE IF n \notin 1..3 THEN {}
                   ELSE (IF diff >= 0 THEN {} ELSE {"format_rounded_down"})
                        \cup (IF diff <= (IF res THEN u ELSE u - 1) THEN {} ELSE {"format_more_than_one_unit_above"}))
+            \* the library's own parser reads the text back as the same value (pb = parse_hms(text))
+            \cup (IF "pb" \notin DOMAIN out \/ out.pb.t = "none" \/ n \notin 1..3 THEN {}
+                  ELSE IF out.pb.t \notin {"int", "float"} THEN {"format_text_does_not_parse_back"}
+                  ELSE LET d == (out.pb.w - ow) * 1000000 + (out.pb.micro - Val(PadTo(out.fd, 6))) IN
+                       IF d >= -1 /\ d <= 1 THEN {} ELSE {"format_text_does_not_parse_back"})
             \* leading field is not zero-padded and hours/minutes appear only when non-zero
             \cup (IF n \in 2..3 /\ out.fields[1] = 0 THEN {"format_leading_zero_field"} ELSE {})
 
